@@ -33,6 +33,7 @@ type c07Case struct {
 	SPI      int    `json:"spi_pair"`
 	Pat      int    `json:"pattern"`
 	Via      string `json:"via"` // raw | proposal
+	Then     *c07Case `json:"then,omitempty"` // a second derivation after which the first SA is inspected again
 }
 
 var spiPairs = [][2]uint64{{0, 0}, {1, 2}, {1 << 63, ^uint64(0)}, {^uint64(0), 0}}
@@ -59,7 +60,13 @@ func init() {
 		Replay: func(c *engine.Ctx, raw json.RawMessage) {
 			var cs c07Case
 			unmarshalCase(raw, &cs)
-			if cs.K == "twoparty" {
+			c07Prev = nil
+			if cs.K == "derive2" && cs.Then != nil {
+				first := cs
+				first.K, first.Then = "derive", nil
+				evalC07(c, first)
+				evalC07(c, *cs.Then)
+			} else if cs.K == "twoparty" {
 				evalC07TwoParty(c, cs)
 			} else {
 				evalC07(c, cs)
@@ -231,7 +238,28 @@ func evalC07(c *engine.Ctx, cs c07Case) {
 	}
 	c.Distinct(engine.Hash64(want.SKd, want.SKai, want.SKei, want.SKpr))
 	c.Sample(cs.Via, map[string]interface{}{"case": cs, "SK_d": engine.Hex(want.SKd)})
+	// an SA derived earlier must still hold its keys after this derivation (key material that aliases
+	// a buffer the library reuses is invisible to an immediate comparison)
+	if pv := c07Prev; pv != nil {
+		if sig, what := checkSA(pv.sa, pv.want, pv.p, pv.ig); sig != "" {
+			c.Violate("earlier-sa-changed-by-later-derivation/"+sig, fmt.Sprintf("the SA derived for %+v no longer holds its keys after the derivation for %+v: %s", pv.cs, cs, what), c07Case{K: "derive2", PRF: pv.cs.PRF, Integ: pv.cs.Integ, Encr: pv.cs.Encr, DH: pv.cs.DH,
+				NonceLen: pv.cs.NonceLen, SecLen: pv.cs.SecLen, SPI: pv.cs.SPI, Pat: pv.cs.Pat, Via: pv.cs.Via, Then: &cs})
+			c07Prev = nil
+			return
+		}
+	}
+	c07Prev = &c07Held{cs: cs, sa: sa, want: want, p: p, ig: ig}
 }
+
+type c07Held struct {
+	cs   c07Case
+	sa   *security.IKESAKey
+	want ref.IKEKeys
+	p    ref.PRFAlg
+	ig   ref.IntegAlg
+}
+
+var c07Prev *c07Held
 
 func evalC07TwoParty(c *engine.Ctx, cs c07Case) {
 	c.Evals++
